@@ -58,7 +58,9 @@ def direct_env(a):
 PAIRS = [(-37.95103341667, 144.42486788889, -37.65282113889, 143.92649552778), (0.0, 0.0, 0.0, 90.0), (0.0, 0.0, 45.0, 0.0),
          (0.0, 10.0, 10.0, 20.0), (10.0, 20.0, 0.0, 10.0), (-0.0, 5.0, 0.5, 179.0), (89.9, 0.0, 89.9, 180.0), (-90.0, 0.0, 45.0, 77.0),
          (20.0, 179.9, 21.0, -179.9), (-33.0, -179.5, -34.0, 179.5), (0.0, 0.0, 1e-8, 1e-8), (50.0, 10.0, 50.0, 10.00001),
-         (1.0, 0.0, -1.5, 177.5), (0.0, 0.0, 0.3, 177.7), (30.0, -100.0, -29.0, 77.9), (40.0, 0.0, 40.0, 120.0), (0.0, 0.0, 0.0, 1e-6)]
+         (1.0, 0.0, -1.5, 177.5), (0.0, 0.0, 0.3, 177.7), (30.0, -100.0, -29.0, 77.9), (40.0, 0.0, 40.0, 120.0), (0.0, 0.0, 0.0, 1e-6),
+         # 2.0 - 2.3 deg from antipodal with the offset mostly in latitude: the slowest-converging part of the domain (14-20 lambda passes)
+         (5.0, 0.0, -3.0, 179.0), (5.0, 0.0, -3.0, 179.5), (20.0, 0.0, -18.0, 179.0), (20.0, 0.0, -17.9, 179.8), (-20.0, 100.0, 18.0, -81.0)]
 
 
 def _inverse_checks(p1, p2, e, msgs):
